@@ -140,6 +140,44 @@ CHECKS["C13"] = dict(
               "with a gated fake execution node; free-running fault injection",
 )
 
+CHECKS["C08"] = dict(
+    category="model_checking",
+    text="MsgValidation.tla models the pubsub gate of one peer (ValidatePubsubMessage -> validateSSVMessage -> consensus / partial-signature "
+         "rules in the code's order, per-signer state, both envelope eras) over alphabets of message classes that include every degenerate "
+         "field class (round 0 / 2^32 / 2^63 / 2^64-1, slot 0 / 2^62+s / 2^63 / 2^64-1, empty / zero / non-member / unsorted / duplicate / 13 / 14 "
+         "signers, unknown types and roles, malformed and nested justifications, zero signatures, six registry classes, wrong topic / domain, "
+         "seven envelope classes). TLC checks totality on every edge of seven family configs exhaustively; a Go driver concretises every "
+         "(accepted prefix, class, time point) up to depth 2-4 with real SSZ/JSON encoding, real BLS/RSA keys and a re-based-genesis clock and "
+         "passes it to the real ValidatePubsubMessage under recover(), a hang watchdog and an allocation ceiling; every recorded call is "
+         "validated by TLC (MsgValidationTrace). Byte half: seeded perturbations (truncation at field boundaries, offset/length words, extreme "
+         "8-byte values, bit flips) of the model-generated messages fed to the validator and to DecodeSignedSSVMessage, DecodeNetworkMsg, "
+         "queue.DecodeSSVMessage, NodeInfo/SignedNodeInfo Consume+UnmarshalRecord, NodeMetadata.Decode, Subnets.FromString.",
+    design_ref="DESIGN.md section 5 C08, section 7",
+    note="The byte-string half is EXPLORATION seeded from the model (arbitrary byte strings are not enumerated); messages above a few KiB are "
+         "not generated; allocation ceiling 96 MiB per call, hang = 2 s (10 s bulk). Shares one run with C09 (cached under .work/msgval).",
+    technique="TLA+ spec + TLC exhaustive check; implementation-driven sweep of the real validator over the spec alphabet with TLC trace "
+              "validation; attack traces; model-seeded byte perturbation of validator and decoders",
+)
+CHECKS["C09"] = dict(
+    category="model_checking",
+    text="MsgValidation.tla holds two definitions: the operational verdict (rules in the code's order with the real rule texts and the "
+         "per-signer state update) and the declarative GossipBreak/GossipOK written from the property statement over the set of previously "
+         "accepted messages. TLC checks accept => GossipOK (AcceptSound), totality and StateSound on every edge of seven family configs "
+         "(single-signer consensus, deep core interplay, time windows of three roles, partial signatures, N=7, decided messages, both envelope "
+         "eras); 18 weakened-guard configs give attack traces. The real validator is swept over the same alphabets after every accepted prefix "
+         "(depth 2-4) and every call is validated by TLC (0 mismatches); graph cover, simulated behaviours and attack traces are replayed with "
+         "per-step comparison of class and Error.Text(). The verdict comes only from valkit.Monitor: the statement of C09 evaluated on the "
+         "concrete accepted bytes (own SSZ decode, own RSA verification, own leader/window arithmetic) and the concrete history. Thorough: "
+         "message sets from 8 goroutines under -race, each batch explained by some sequential order found by TLC.",
+    design_ref="DESIGN.md section 5 C09",
+    note="Exhaustive only for the stated alphabets (<= 2 tracked single signers, listed slot/round/time classes, committee 4 and 7). The monitor "
+         "asserts exactly the statement: full data on prepares/commits, decided-message limits and signer/envelope-operator identity are not "
+         "asserted. Named deviations PartialWindow / OverflowGuard are selected by probing the real validator. Known finding "
+         "accepted:partial-sig-outside-slot-window (KNOWN-FINDING, exit 0). Clock-dependent clauses are skipped for calls slower than 300 ms.",
+    technique="TLA+ spec with operational and declarative definitions + TLC exhaustive check; sweep of the real validator with TLC trace "
+              "validation; attack traces; independent concrete-bytes monitor; concurrent batches under -race",
+)
+
 _QBFT_NOTE = ("N=4 (f=1), one Byzantine operator with its real BLS key; exhaustive only per adversary class and round bound "
               "named in the evidence (macro grain: quorum-at-once delivery of prepares/commits, normalised like "
               "instance.Compact), never for all Byzantine behaviours; the fine grain (one ProcessMsg per step) is "
